@@ -68,7 +68,7 @@ def repo_files():
     out += [os.path.join(REPO, "Cargo.toml"), os.path.join(REPO, "Cargo.lock")]
     return [p for p in out if os.path.exists(p)]
 
-GENERATED_V = ("TablesGen.v", "ConstsGen.v", "SrcGen.v", "SrcTieLevel.v", "SrcTieTables.v", "SrcTiePreds.v", "SrcTieDir.v", "SrcTieBaseDir.v", "SrcTieL1.v", "SrcTiePipe.v", "SrcTieUtf16.v", "SrcTieUtf16Iter.v", "SrcAgreeExplicit.v", "SrcTieExplicit.v", "SrcTieInitial.v", "SrcTieRuns.v", "SrcTieVisual.v", "SrcTieGlue.v")
+GENERATED_V = ("TablesGen.v", "ConstsGen.v", "SrcGen.v", "SrcTieLevel.v", "SrcTieTables.v", "SrcTiePreds.v", "SrcTieDir.v", "SrcTieBaseDir.v", "SrcTieL1.v", "SrcTiePipe.v", "SrcTieUtf16.v", "SrcTieUtf16Iter.v", "SrcAgreeExplicit.v", "SrcTieExplicit.v", "SrcTieInitial.v", "SrcTieRuns.v", "SrcTieVisual.v", "SrcTieGlue.v", "SrcTieLine.v")
 
 def verif_files():
     out = []
@@ -92,7 +92,7 @@ def write_if_changed(path, content):
     if old != content:
         open(path, "w").write(content)
 
-TIE_TEMPLATES = ["SrcTieLevel", "SrcTieTables", "SrcTiePreds", "SrcTieDir", "SrcTieBaseDir", "SrcTieL1", "SrcTiePipe", "SrcTieUtf16", "SrcTieUtf16Iter", "SrcAgreeExplicit", "SrcTieExplicit", "SrcTieInitial", "SrcTieRuns", "SrcTieVisual", "SrcTieGlue"]
+TIE_TEMPLATES = ["SrcTieLevel", "SrcTieTables", "SrcTiePreds", "SrcTieDir", "SrcTieBaseDir", "SrcTieL1", "SrcTiePipe", "SrcTieUtf16", "SrcTieUtf16Iter", "SrcAgreeExplicit", "SrcTieExplicit", "SrcTieInitial", "SrcTieRuns", "SrcTieVisual", "SrcTieGlue", "SrcTieLine"]
 # which properties lean on which translated-source tie file
 TIE_PROPS = {"C19": ["Proofs/SrcTieLevel.v"], "C14": ["Proofs/SrcTieTables.v"], "C15": ["Proofs/SrcTieTables.v"],
              "C01": ["Proofs/SrcTiePreds.v", "Proofs/SrcTiePipe.v", "Proofs/SrcAgreeExplicit.v", "Proofs/SrcTieExplicit.v"],
@@ -100,7 +100,7 @@ TIE_PROPS = {"C19": ["Proofs/SrcTieLevel.v"], "C14": ["Proofs/SrcTieTables.v"], 
              "C13": ["Proofs/SrcAgreeExplicit.v", "Proofs/SrcTieExplicit.v"],
              "C02": ["Proofs/SrcTieInitial.v"], "C10": ["Proofs/SrcTieInitial.v"], "C12": ["Proofs/SrcTieInitial.v"],
              "C03": ["Proofs/SrcTieL1.v"], "C18": ["Proofs/SrcTieUtf16.v", "Proofs/SrcTieUtf16Iter.v"], "C09": ["Proofs/SrcTieUtf16.v"], "C16": ["Proofs/SrcTieBaseDir.v", "Proofs/SrcTieInitial.v"], "C17": ["Proofs/SrcTieDir.v", "Proofs/SrcTieGlue.v"],
-             "C05": ["Proofs/SrcTieRuns.v"], "C06": ["Proofs/SrcTieRuns.v"], "C04": ["Proofs/SrcTieVisual.v"]}
+             "C05": ["Proofs/SrcTieRuns.v"], "C06": ["Proofs/SrcTieRuns.v", "Proofs/SrcTieLine.v"], "C04": ["Proofs/SrcTieVisual.v"]}
 # the lemmas of a shared tie file a property leans on (None / absent = all of the file)
 TIE_LEMMAS = {"C11": ["tie_max_depths", "tie_new_explicit", "tie_next_ltr", "tie_next_rtl", "tie_raise", "tie_lowest_ge_rtl",
                       "agree_explicit_short", "agree_explicit_two_units", "agree_explicit_at_the_limit", "tie_explicit_compute"]}
@@ -593,6 +593,7 @@ def proof_status(prop, coq):
                 "Proofs/SrcTieUtf16.v": ("utf16::TextSource", "utf16::is_"), "Proofs/SrcTieUtf16Iter.v": ("utf16::Iterator", "utf16::DoubleEnded"),
                 "Proofs/SrcAgreeExplicit.v": "explicit::", "Proofs/SrcTieExplicit.v": "explicit::", "Proofs/SrcTieInitial.v": "lib::compute_initial_info",
                 "Proofs/SrcTieRuns.v": "lib::visual_runs_for_line", "Proofs/SrcTieVisual.v": ("lib::reorder_visual", "lib::next_range", "lib::BidiInfo::reorder_visual", "lib::ParagraphBidiInfo::reorder_visual"),
+                "Proofs/SrcTieLine.v": "lib::reorder_line",
                 "Proofs/SrcTieGlue.v": ("lib::BidiInfo::has_rtl", "lib::ParagraphBidiInfo::has_rtl", "lib::ParagraphBidiInfo::direction")}[tf]
         for r, why in skipped.items():
             if r.startswith(stem):
